@@ -1,4 +1,4 @@
-CONSTANTS Tasks = {1, 2, 3}  Bug = "none"  MaxLen = 10
+CONSTANTS Tasks = {1, 2, 3}  Bug = "none"  MaxLen = 9  MaxStray = 1
 INIT Init
 NEXT Next
 INVARIANT MutualExclusion
